@@ -301,6 +301,12 @@ class Classifier:
                             c, d = int(y[6:]), int(b[6:])
                             if (rop == "Ge" and c >= d) or (rop == "Gt" and c + 1 >= d) or (rop == "Ne" and c == 0 and d == 1):
                                 auto = ("guarded", "dominating comparison %s(%s,%s)" % (rop, x[:40], y))
+            if auto is None and op == "Add" and len(ops) == 2:
+                # x + min(.., L - x, ..): the sum is at most L
+                for x_, y_ in ((ops[0], ops[1]), (ops[1], ops[0])):
+                    mm_ = re.match(r"^(?:Ord|cmp)::min\((.*)\)$", y_)
+                    if mm_ and any(re.match(r"^(?:<impl \w+>::|\w+::)?saturating_sub\((.*),%s\)$" % re.escape(x_), part) or re.match(r"^Sub\((.*),%s\)$" % re.escape(x_), part) for part in _split_top(mm_.group(1))):
+                        auto = ("interval", "x + min(.., L - x): the sum is bounded by L, a value of the same type")
             if auto is None and tystr and op in ("Add", "Sub", "Mul", "Shl") and len(s["ops"]) == 2:
                 import intervals as _iv
                 ivs_ = _iv.Intervals(self.ctx, f)
